@@ -78,7 +78,7 @@ Section CurRun.
   Let stopf := if j_stop c =? 0 then file_bound else j_stop c.
   Let bound := (stopf / j_bundle c + 1) * j_bundle c.
   Let mend := N.min merged_end bound.
-  Let fend0 := if negb (j_stop c =? 0) && ((j_stop c / j_bundle c + 1) * j_bundle c <=? merged_end) then JStop else JNil.
+  Let fend0 := file_end c merged_end.
   Let J0 := rev (hc ++ hf).
   (* the start block of the section lemmas: the first block after L *)
   Let start := match rest with r1 :: _ => bnum r1 | [] => bnum L end.
@@ -177,10 +177,20 @@ Section CurRun.
   Lemma mend_le : forall x, bnum x < mend -> bnum x < merged_end.
   Proof. intros x H. unfold mend in H. lia. Qed.
 
-  (* when the file source ends waiting for the next file it has read every merged block *)
-  Lemma mend_all : fend0 = JNil -> forall b, In b canon -> (bnum b <? mend) = (bnum b <? merged_end).
+  (* the first bundle of the file source (that of the cursor LIB) exists as soon as L is in the merged files *)
+  Lemma fend0_old : bnum L < merged_end -> fend0 = (if negb (j_stop c =? 0) && ((j_stop c / j_bundle c + 1) * j_bundle c <=? merged_end) then JStop else JNil).
   Proof.
-    intros Hf b Hb. unfold fend0 in Hf. unfold mend, bound, stopf.
+    intros HLm. unfold fend0, file_end, first_bundle_ok. rewrite Hmode, Hcur. cbn [N.eqb Pos.eqb]. fold lib.
+    assert (Hb0 : j_bundle c <> 0) by lia.
+    pose proof (N.mul_div_le lib (j_bundle c) Hb0) as Hdiv.
+    replace (lib / j_bundle c * j_bundle c <? merged_end) with true; [rewrite andb_true_r; reflexivity|].
+    symmetry. apply N.ltb_lt. rewrite <- ELn in Hdiv. nia.
+  Qed.
+
+  (* when the file source ends waiting for the next file it has read every merged block *)
+  Lemma mend_all : bnum L < merged_end -> fend0 = JNil -> forall b, In b canon -> (bnum b <? mend) = (bnum b <? merged_end).
+  Proof.
+    intros HLm Hf b Hb. rewrite (fend0_old HLm) in Hf. unfold mend, bound, stopf.
     destruct (N.ltb_spec (bnum b) merged_end) as [Hlt|Hge].
     - apply N.ltb_lt. apply N.min_glb_lt; [exact Hlt|].
       case_eq (j_stop c =? 0); intros E0; rewrite E0 in Hf; cbn [negb andb] in Hf.
@@ -197,7 +207,7 @@ Section CurRun.
      match snd (from_cursor_run merged forked cu stopf (j_bundle c)) with
      | RsOk => fend0 | RsResolveErr => JInvalidArg | RsNotImplemented => JOther | RsFuel => JFuel end).
   Proof.
-    unfold run_files. rewrite Hmode, Hcur. cbn [N.eqb Pos.eqb].
+    unfold run_files. fold fend0. rewrite Hmode, Hcur. cbn [N.eqb Pos.eqb].
     change (if j_stop c =? 0 then 1000000000000 else j_stop c) with stopf.
     destruct (from_cursor_run merged forked cu stopf (j_bundle c)) as [fevs r]. reflexivity.
   Qed.
@@ -213,7 +223,7 @@ Section CurRun.
       from_cursor_run merged forked cu stopf (j_bundle c) = (und ++ map (file_event SIrr) I ++ map fev later, RsOk) /\
       filter (fun b => bnum b <? mend) rest = hc ++ later /\
       (exists x, lnk x (hc ++ later)) /\ (forall b, In b (hc ++ later) -> In b merged) /\
-      (forall z r, hc ++ later = z :: r -> bnum z <= start).
+      (forall z r, hc ++ later = z :: r -> bnum z <= start) /\ bnum L < merged_end.
   Proof.
     destruct Hstate as (Hbr & Hon & Hoff & Hnu' & Hu & Hfiles).
     pose proof (merged_chain_ok canon merged_end Hchain) as Hmok. fold merged in Hmok.
@@ -285,6 +295,7 @@ Section CurRun.
     split.
     { intros b Hb. rewrite <- Erest' in Hb. destruct (HDc b (or_intror Hb)) as [H1 H2].
       unfold merged. apply filter_In. split; [exact H1 | apply N.ltb_lt; apply mend_le; exact H2]. }
+    split; [|apply mend_le; apply N.ltb_lt; exact ELm].
     intros z r Ez. rewrite <- Erest' in Ez. unfold rest', start in *. destruct rest as [|r1 rest1]; [discriminate|].
     cbn [filter] in Ez. destruct (bnum r1 <? mend) eqn:E1; [injection Ez as <- _; lia|].
     exfalso. pose proof (asc_filter (fun b => lib <=? bnum b) canon Hasc) as Ha. fold (from_num lib canon) in Ha. rewrite Hfrom in Ha.
@@ -389,7 +400,7 @@ Section CurRun.
     - exists [], J0. split; [reflexivity|]. split; [apply disc_nil; exact J0_good|]. right. right. rewrite Hr. split; [reflexivity|]. split; [reflexivity|]. split; discriminate.
     - (* files, then the join *)
       rewrite !Hseen in *.
-      destruct cur_files as [[Enone _]|(I & later & Erun & Erest' & Hlk & Hinm & Hbot)].
+      destruct cur_files as [[Enone _]|(I & later & Erun & Erest' & Hlk & Hinm & Hbot & HLm)].
       { rewrite Enone in Ef. cbn [fst] in Ef. destruct pre; discriminate. }
       rewrite Erun in Ef. cbn [fst] in Ef. rewrite app_assoc in Ef.
       destruct (join_try_some c _ lowest e burst Hj) as (Hen & _ & _).
@@ -431,7 +442,7 @@ Section CurRun.
         exact (from_num_first canon lib L r1 rest1 Hasc Hfrom).
     - (* files only *)
       rewrite Hseen in Hfo.
-      destruct cur_files as [[Enone Hnr]|(I & later & Erun & Erest' & Hlk & Hinm & Hbot)].
+      destruct cur_files as [[Enone Hnr]|(I & later & Erun & Erest' & Hlk & Hinm & Hbot & HLm)].
       + rewrite Enone in Hfo. cbn [fst snd] in Hfo. exists [], J0. split; [reflexivity|]. split; [apply disc_nil; exact J0_good|]. right. left.
         split; [exact Hrej|]. split; [exact Hfo|]. split; [intros _; left; reflexivity|]. left. split; [reflexivity | exact Hnr].
       + rewrite Erun in Hfo. cbn [fst snd] in Hfo. rewrite app_assoc in Hfo.
@@ -454,7 +465,7 @@ Section CurRun.
         right. left. split; [exact Hrej|]. split; [exact Hfo|]. split; [|right; exists I, later; split; [reflexivity | exact Erest']]. intros Hf. right. left.
         rewrite rev_involutive, <- Erest'. rewrite <- (above_of_from_num canon lib L rest Hasc Hfrom ELn).
         unfold above, merged. rewrite !filter_filter. apply filter_ext_in. intros b Hb.
-        rewrite (mend_all Hf b Hb). apply andb_comm.
+        rewrite (mend_all HLm Hf b Hb). apply andb_comm.
   Qed.
 
   (* ---------------------------------------------------------------- the theorem *)
@@ -535,11 +546,7 @@ Section CurRun.
           -- intros Hfe. destruct (HP Hfe) as [E|Hdn]; [left; subst X; reflexivity | right; exact Hdn].
           -- (* the file source reported the end of the bundle of S: impossible, block S is in the files read *)
              intros Hsc (bS & HbS & HnS) Hfe. exfalso.
-             assert (E0 : j_stop c <> 0) by (intros E; unfold fend0 in Hfe; rewrite E in Hfe; discriminate).
-             assert (Hble : (j_stop c / j_bundle c + 1) * j_bundle c <= merged_end).
-             { unfold fend0 in Hfe. apply N.leb_le.
-               case_eq ((j_stop c / j_bundle c + 1) * j_bundle c <=? merged_end); [reflexivity|].
-               intros E. rewrite E, andb_false_r in Hfe. discriminate. }
+             destruct (file_end_stop c merged_end Hfe) as [E0 Hble].
              assert (Estopf : stopf = j_stop c) by (unfold stopf; apply N.eqb_neq in E0; rewrite E0; reflexivity).
              pose proof (N.mul_succ_div_gt (j_stop c) (j_bundle c)) as Hdiv. rewrite <- N.add_1_r in Hdiv.
              assert (HSb : j_stop c < bound) by (unfold bound; rewrite Estopf; nia).
